@@ -464,6 +464,9 @@ func callable(p *Pair) bool {
 func caseLive(cfg *RunCfg, st *Stats, w *CaseWriter, idx int) string {
 	r := cfg.Rng
 	lim := int32(1 + r.Intn(3))
+	if r.Intn(8) == 0 {
+		lim = 0 // the plugin starts without a connection limit
+	}
 	ol := overloader.New(overloader.LimitConfig{MaxConn: lim, QPSInterval: time.Second})
 	pre := &verdictPlugin{name: "pre", seen: map[string]interface{}{}}
 	post := &verdictPlugin{name: "post"}
@@ -485,7 +488,15 @@ func caseLive(cfg *RunCfg, st *Stats, w *CaseWriter, idx int) string {
 			c.Close()
 		}
 	}()
-	vc := ol.VerifConn()
+	// the plugin's limiter is a pointer: MaxConn <= 0 drops it, a later MaxConn > 0 builds a
+	// fresh instance; gen numbers the instances (-1: no limiter), genOf = instance a session
+	// was admitted through
+	gen := 0
+	gens := 1
+	if lim == 0 {
+		gen, gens = -1, 0
+	}
+	genOf := map[*Pair]int{}
 
 	var live []*Pair
 	var done []interface{}
@@ -496,19 +507,29 @@ func caseLive(cfg *RunCfg, st *Stats, w *CaseWriter, idx int) string {
 	n := 6 + r.Intn(10)
 	fail := func(key, what string) { st.Fail(idx, key, what, strings.Join(human, " ")) }
 
+	liveCur := func() int {
+		c := 0
+		for _, q := range live {
+			if genOf[q] == gen {
+				c++
+			}
+		}
+		return c
+	}
 	admit := func(p *Pair, before int, shouldPass bool) {
 		if p.SrvSess != nil {
 			live = append(live, p)
-			if int32(before+1) > curLim {
-				fail("over-admission", fmt.Sprintf("connection admitted as number %d with limit %d", before+1, curLim))
+			genOf[p] = gen
+			if gen >= 0 && int32(before+1) > curLim {
+				fail("over-admission", fmt.Sprintf("connection admitted as number %d of its limiter with limit %d", before+1, curLim))
 			}
 		} else {
 			hooks++
 			if s, ok := pre.seen[p.CliSess.LocalAddr().String()]; ok {
 				done = append(done, s)
 			}
-			if shouldPass && int32(before) < curLim {
-				fail("spurious-reject", fmt.Sprintf("connection refused with %d admitted and limit %d", before, curLim))
+			if shouldPass && (gen < 0 || int32(before) < curLim) {
+				fail("spurious-reject", fmt.Sprintf("connection refused with %d admitted through the current limiter and limit %d (0 = none)", before, curLim))
 			}
 			if callable(p) {
 				fail("rejected-callable", "a refused connection still completes a call")
@@ -517,7 +538,7 @@ func caseLive(cfg *RunCfg, st *Stats, w *CaseWriter, idx int) string {
 		all = append(all, p)
 	}
 	for k := 0; k < n; k++ {
-		before := len(live)
+		before := liveCur()
 		switch x := r.Intn(20); {
 		case x < 8:
 			e, l := r.Intn(5) != 0, r.Intn(5) != 0
@@ -554,6 +575,9 @@ func caseLive(cfg *RunCfg, st *Stats, w *CaseWriter, idx int) string {
 			if free < 0 {
 				free = 0
 			}
+			if gen < 0 {
+				free = kk
+			}
 			if got > free {
 				fail("over-admission", fmt.Sprintf("%d concurrent connections: %d admitted with %d free slots (limit %d)", kk, got, free, curLim))
 			}
@@ -563,6 +587,7 @@ func caseLive(cfg *RunCfg, st *Stats, w *CaseWriter, idx int) string {
 			for _, p := range ps {
 				if p.SrvSess != nil {
 					live = append(live, p)
+					genOf[p] = gen
 				} else {
 					hooks++
 					if s, ok := pre.seen[p.CliSess.LocalAddr().String()]; ok {
@@ -589,7 +614,17 @@ func caseLive(cfg *RunCfg, st *Stats, w *CaseWriter, idx int) string {
 			evs = append(evs, VS("close"))
 			human = append(human, "close("+how+")")
 		case x < 18:
+			// N->M, N->0 (limiter dropped), 0->N (fresh limiter), 0->0
 			nl := int32(1 + r.Intn(4))
+			if r.Intn(3) == 0 {
+				nl = 0
+			}
+			if nl == 0 {
+				gen = -1
+			} else if gen < 0 {
+				gen = gens
+				gens++
+			}
 			curLim = nl
 			ol.Update(overloader.LimitConfig{MaxConn: nl, QPSInterval: time.Second})
 			evs = append(evs, VL(VS("upd"), VN(int64(nl))))
@@ -623,17 +658,26 @@ func caseLive(cfg *RunCfg, st *Stats, w *CaseWriter, idx int) string {
 				nc++
 			}
 		}
-		now, tmp, cnt := int64(vc.Now()), int64(vc.Tmp()), srv.CountSession()
+		cnt := srv.CountSession()
 		if nc != len(live) {
 			fail("callable-mismatch", fmt.Sprintf("%d admitted sessions but %d connections complete a call", len(live), nc))
 		}
 		if cnt != len(live) {
 			fail("count-session", fmt.Sprintf("CountSession=%d with %d admitted sessions", cnt, len(live)))
 		}
-		if now != int64(len(live)) || tmp != int64(len(live)) {
-			fail("slot-accounting", fmt.Sprintf("limiter now=%d tmp=%d with %d admitted sessions", now, tmp, len(live)))
+		vc := ol.VerifConn()
+		if (vc == nil) != (gen < 0) {
+			fail("limiter-presence", fmt.Sprintf("MaxConn=%d but limiter present=%v", curLim, vc != nil))
 		}
-		obs = append(obs, VL(VN(int64(nc)), VN(int64(cnt)), VZ(now), VZ(tmp)))
+		if vc != nil {
+			now, tmp := int64(vc.Now()), int64(vc.Tmp())
+			if lc := int64(liveCur()); now != lc || tmp != lc {
+				fail("slot-accounting", fmt.Sprintf("current limiter now=%d tmp=%d with %d sessions admitted through it (%d in all)", now, tmp, lc, len(live)))
+			}
+			obs = append(obs, VL(VN(int64(nc)), VN(int64(cnt)), VZ(now), VZ(tmp)))
+		} else {
+			obs = append(obs, VL(VN(int64(nc)), VN(int64(cnt)), VS("none"), VS("none")))
+		}
 	}
 	for _, p := range all {
 		if p.CliSess != nil {
@@ -645,7 +689,7 @@ func caseLive(cfg *RunCfg, st *Stats, w *CaseWriter, idx int) string {
 	if !WaitUntil(quiesce, func() bool { return atomic.LoadInt64(&tail.disc) >= hooks && srv.CountSession() == 0 }) {
 		fail("no-quiescence", "disconnect hooks missing after closing every connection")
 	}
-	if vc.Now() != 0 || vc.Tmp() != 0 {
+	if vc := ol.VerifConn(); vc != nil && (vc.Now() != 0 || vc.Tmp() != 0) {
 		fail("slot-accounting", fmt.Sprintf("every connection closed but limiter now=%d tmp=%d", vc.Now(), vc.Tmp()))
 	}
 	w.Add(VL(VS("live"), VN(int64(lim)), VL(evs...)), VL(obs...))
@@ -1094,7 +1138,7 @@ func main() {
 		}
 	})
 	st := NewStats("C18", cfg)
-	st.Rule = "histories drawn from 7 kinds: cseq/qseq = random op sequences on the limiter handles; cconc/qconc = random forced interleavings of 2-4 goroutines parked at the gate points (plus the lost-update schedule of the refuted theorem); live = accept / refuse-by-earlier-plugin / refuse-by-limit / refuse-by-later-plugin / concurrent batch / close (client or server side) / limit update / duplicate disconnect on a real peer; dial = the same with the plugin in the dialing peer; qlive = calls, pushes and harness-driven ticks through a live session; wall = 2 (thorough 8) wall-clock runs of the real plugin with real tickers after limit/interval updates, 1 s of sustained calls. distinct by kind + event string; non-trivial = at least one refusal or one interleaved step"
+	st.Rule = "histories drawn from 7 kinds: cseq/qseq = random op sequences on the limiter handles; cconc/qconc = random forced interleavings of 2-4 goroutines parked at the gate points (plus the lost-update schedule of the refuted theorem); live = accept / refuse-by-earlier-plugin / refuse-by-limit / refuse-by-later-plugin / concurrent batch / close (client or server side) / limit update incl. limiter off and on again (fresh limiter instance) / duplicate disconnect on a real peer; dial = the same with the plugin in the dialing peer; qlive = calls, pushes and harness-driven ticks through a live session; wall = 2 (thorough 8) wall-clock runs of the real plugin with real tickers after limit/interval updates, 1 s of sustained calls. distinct by kind + event string; non-trivial = at least one refusal or one interleaved step"
 	w := NewCaseWriter(cfg)
 	distinct := DistinctSet{}
 	for i := 0; i < cfg.N; i++ {
